@@ -631,6 +631,8 @@ def req_plan(world: World, c: dict, rng: Any) -> dict:
     if c["body"] in ("form", "multipart"):
         req["headers"] = [h for h in req["headers"] if h[0].lower() != "content-type"]
     kinds = ["bytesN", "bytesN", "streamPlain", "paySized"] if c["ver"] == "1.1" else ["bytesN", "paySized", "streamCL"]
+    if c["m"] == "HEAD":
+        kinds = ["bytesN", "paySized"]
     resp = {"status": 200, "kind": rng.choice(kinds), "n": rng.choice([1, 100, 2049]),
             "comp": "off", "fclose": False, "hconn": "none", "headers": [list(h) for h in rng.choice(RESP_HEADERS)],
             "reason": None, "coding": "gzip", "wstep": 0, "chunk": 256 * 1024}
